@@ -418,6 +418,12 @@ func (g *Gen) genTest(kind string, w Val, sat bool, idx int) (TestSpec, bool) {
 			}
 		case "oneof":
 			ts.Args = []Val{Str("red"), Str("zq")}
+			if g.p(0.15, "oneoption") {
+				ts.Args = ts.Args[:1]
+				if sat {
+					ts.Args = nil
+				}
+			}
 			if g.p(0.15, "longoneof") {
 				for _, x := range []string{"zulu", "alpha", "mike", "bravo", "yankee", "delta", "echo", "x-ray", "golf", "hotel", "india", "whiskey", "kilo", "lima", "victor", "november", "oscar", "papa"} {
 					ts.Args = append(ts.Args, Str(x))
@@ -477,6 +483,12 @@ func (g *Gen) genTest(kind string, w Val, sat bool, idx int) (TestSpec, bool) {
 			}
 		case "oneof":
 			ts.Args = []Val{numVal(kind, 77), numVal(kind, -3)}
+			if g.p(0.15, "oneoption") {
+				ts.Args = ts.Args[:1] // a single option (two with the witness)
+				if sat {
+					ts.Args = nil
+				}
+			}
 			if g.p(0.15, "longoneof") {
 				// a long list in no particular order (port numbers, status codes ...)
 				for _, x := range []float64{8080, 443, 80, 22, 9090, 21, 25, 3306, 5432, 6379, 27017, 8443, 53, 110, 143, 993, 995, 587, 11211} {
